@@ -84,6 +84,9 @@ def ref_parse(body, boundary, charset):
     block_lens = []
     while True:
         if body[pos:pos + 2] == b"--":
+            if body[pos + 2:] == b"":
+                epilogue = b""          # the body ends with the close-delimiter (RFC 2046: [CRLF epilogue] is optional)
+                break
             if body[pos + 2:pos + 4] != b"\r\n":
                 return None
             epilogue = body[pos + 4:]
@@ -129,7 +132,8 @@ def ref_parse(body, boundary, charset):
             if s != s.strip():
                 return None
     try:
-        if encode_form(boundary, parts, preamble, epilogue, charset) != body:
+        canonical = encode_form(boundary, parts, preamble, epilogue, charset)
+        if canonical != body and not (epilogue == b"" and canonical[:-2] == body):
             return None
     except (UnicodeEncodeError, LookupError):
         return None
